@@ -24,7 +24,7 @@ BOUNDS = {
 STUBS = ["mounted applications are recorders", "urllib.parse.urlsplit: the lru_cache wrapper is bypassed, the wrapped Python function is interpreted",
          "urllib.parse.quote: per-byte model (differentially tested); unquote: interpreted from the stdlib source / ASCII model in the oracle"]
 ASSUMPTIONS = ["mount tables are enumerated, not solver-quantified"]
-OUTSIDE = ["non-ASCII characters and IDNA hosts in IRI <-> URI conversion (C-level codecs)", "EnvironBuilder -> Request object round trip (latin-1 tunnelling)",
+OUTSIDE = ["non-ASCII solver characters in path/query/fragment", "solver-quantified IDN labels (concrete IDN hosts only)", "EnvironBuilder -> Request object path (latin-1 tunnelling)"]
            "userinfo / port components", "URL texts longer than the bound"]
 
 TABLES = [
@@ -79,7 +79,12 @@ def body_dispatch(I, X, ti=0, n=4, script_name=""):
 FORMS = {"free1": ("{}", 1), "free2": ("{}", 2), "escape": ("%{}", 2), "escape-then": ("%2{}", 2), "then-escape": ("{}%2f", 1), "double": ("%25{}", 2)}
 
 
-def body_iri_uri(I, X, comp="path", form="free1"):
+HOSTS = {"h": "h", "idn": "www.\u2603.net", "idn-first": "b\u00fccher.example", "idn-port": "a.b.\u00e9x.fr:8080", "ipv6": "[::1]:8080", "user": "u@h"}
+
+
+def body_iri_uri(I, X, comp="path", form="free1", host="h"):
+    from urllib.parse import urlsplit
+
     from werkzeug import urls
 
     skel, n = FORMS[form]
@@ -89,6 +94,7 @@ def body_iri_uri(I, X, comp="path", form="free1"):
     pre, _, post = skel.partition("{}")
     text = pconcat(pre, t, post)
     base = {"path": "http://h/a", "query": "http://h/p?q=", "fragment": "http://h/p#"}[comp]
+    base = base.replace("//h/", "//" + HOSTS[host] + "/")
     x = pconcat(base, text)
     u1 = I.call(urls.iri_to_uri, (x,))
     i1 = I.call(urls.uri_to_iri, (u1,))
@@ -106,6 +112,10 @@ def body_iri_uri(I, X, comp="path", form="free1"):
     reserved = {"path": ("/", "?", "#"), "query": ("#", "&", "=", "+"), "fragment": ()}[comp]
     for ch in reserved:
         ok = pand(ok, i1.count(ch) == x.count(ch), u2.count(ch) == x.count(ch))
+    # the authority (concrete here, IDN labels in normal form) is undone exactly by URI -> IRI
+    # and is pure ASCII in the URI
+    want = HOSTS[host]
+    ok = pand(ok, peq(I.call(urlsplit, (i1,)).netloc, want))
     return ok, {"u1": u1, "i1": i1, "u2": u2}
 
 
@@ -128,6 +138,30 @@ def body_current_url(I, X, n=2, with_query=True):
     return ok, {"url": url}
 
 
+def body_host_port(I, X, scheme="http", n=2, skel="{}"):
+    """a host and explicit port are recovered from the reconstructed URL: the port survives
+    unless it is the default port OF THAT SCHEME (then the URL carries none and the scheme
+    implies it)"""
+    import urllib.parse
+
+    from symex.poly import pint
+    from werkzeug.sansio.utils import get_current_url, get_host
+
+    d = X.str("port", n, minlen=n, maxcp=0x39)
+    X.assume(pall_in(d, [(0x30, 0x39)]))
+    pre, _, post = skel.partition("{}")
+    port = pconcat(pre, d, post)
+    X.assume(pnot(peq(port[:1], "0")))
+    host = I.call(get_host, (scheme, pconcat("h.example:", port), None))
+    url = I.call(get_current_url, (scheme, host, "/r", "/p", b""))
+    parts = I.call(urllib.parse.urlsplit, (url,))
+    name, sep, ptxt = parts.netloc.partition(":")
+    default = {"http": 80, "https": 443, "ws": 80, "wss": 443}[scheme]
+    got_port = pint(ptxt) if plen(sep) else default
+    ok = pand(peq(parts.scheme, scheme), peq(name, "h.example"), peq(got_port, pint(port)), peq(parts.path, "/r/p"))
+    return ok, {"url": url}
+
+
 def make_stubs():
     from harness.c07 import make_stubs as m
 
@@ -143,12 +177,23 @@ def obligations(tier, seed):
                 continue
             out.append({"name": f"iri_uri[{comp},{form}]", "body": "body_iri_uri", "params": {"comp": comp, "form": form},
                         "opts": {"budget_s": 900 if quick else 3000, "ctx": {"max_cp": 0x7E}}, "witness": form == "escape" and comp == "path"})
+    for host in HOSTS:
+        if host == "h":
+            continue
+        for comp, form in ((("path", "free1"),) if quick else (("path", "free1"), ("path", "escape"), ("query", "free1"))):
+            out.append({"name": f"iri_uri[{comp},{form},host={host}]", "body": "body_iri_uri", "params": {"comp": comp, "form": form, "host": host},
+                        "opts": {"budget_s": 900 if quick else 3000, "ctx": {"max_cp": 0xFFFF}}})
     for wq in (True, False):
         for n in (range(0, 3) if quick else range(0, 4)):
             if quick and n == 2 and not wq:
                 continue
             out.append({"name": f"current_url[n={n},query={wq}]", "body": "body_current_url", "params": {"n": n, "with_query": wq},
                         "opts": {"budget_s": 900, "ctx": {"max_cp": 0x7E}}, "witness": n == 1 and wq})
+    for scheme in ("http", "https", "ws", "wss"):
+        for skel, ns in (("{}", [1, 2, 3]), ("4{}", [2]), ("{}0", [1])):
+            for n in ns:
+                out.append({"name": f"host_port[{scheme},{skel},n={n}]", "body": "body_host_port", "params": {"scheme": scheme, "n": n, "skel": skel},
+                            "opts": {"budget_s": 900, "ctx": {"max_cp": 0x7E, "bv_ints": True}}})
     for ti in range(len(TABLES)):
         for sn in ("", "/root"):
             for n in (range(0, 7) if quick else range(0, 9)):
